@@ -21,10 +21,31 @@ LEAN_MODULES = ["FaxVerif.C08.Theorems"]
 LEAN_SOURCES = ["FaxVerif/C08"]
 DRIVER = "FaxVerif/C08/Driver.lean"
 THEOREMS = [
+    # (b) bound names
     "FaxVerif.C08.alpha",
+    "FaxVerif.C08.alpha_open",
     "FaxVerif.C08.lookup_innermost_first",
     "FaxVerif.C08.lookup_factors",
     "FaxVerif.C08.alpha_translate",
+    "FaxVerif.C08.alpha_translate_open",
+    "FaxVerif.C08.simplify_alpha_partial",
+    "FaxVerif.C08.where_shadow_counterexample",
+    "FaxVerif.C08.count_acc_counterexample",
+    "FaxVerif.C08.argname_counterexample",
+    "FaxVerif.C08.push_capture_counterexample",
+    # (d) chaining
+    "FaxVerif.C08.fusion_select_partial",
+    "FaxVerif.C08.fusion_where_partial",
+    "FaxVerif.C08.fusion_where_assoc_counterexample",
+    # (c) metadata position
+    "FaxVerif.C08.md_outermost_first",
+    "FaxVerif.C08.md_stripped",
+    "FaxVerif.C08.md_position",
+    "FaxVerif.C08.md_inserted",
+    "FaxVerif.C08.md_perm",
+    "FaxVerif.C08.md_many",
+    "FaxVerif.C08.proc_perm_partial",
+    "FaxVerif.C08.proc_perm_counterexample",
 ]
 RULE = (
     "type-directed random queries over a synthetic data model declared by the query's own MetaData calls (collections CollA/CollB, "
@@ -433,7 +454,9 @@ def process_cases(ctx, cases: List[Case], stream: str, tie: bool = True) -> List
         for v in c.variants:
             reqs.append(rel_request(T, v["rel"]))
         reqs.append({"op": "procmd", "items": [md_item(m) for m in c.mds], "keys": []})
+    TIMER.lap("generate queries and variants")
     ans = ctx.driver(DRIVER, reqs)
+    TIMER.lap("lean: relations and exclusions")
     i = 0
     for c in cases:
         vs = c.variants
@@ -498,7 +521,9 @@ def process_cases(ctx, cases: List[Case], stream: str, tie: bool = True) -> List
                     plan.append(("wparse", (c, v["text"], v["rel"]["q2"])))
                     reqs.append({"op": "wparse", "toks": qastle_tokens(v["text"])})
     ctx.check_time()
+    TIMER.lap("real pipeline and real functions")
     ans = ctx.driver(DRIVER, pk.puts + reqs)[len(pk.puts) :]
+    TIMER.lap("lean: spec on outputs and models")
     failures: List[Dict[str, Any]] = []
     alias = False
     for (what, payload), a in zip(plan, ans):
@@ -576,12 +601,16 @@ def process_cases(ctx, cases: List[Case], stream: str, tie: bool = True) -> List
 
 def report_failures(ctx, failures: List[Dict[str, Any]]):
     T, _, _, _ = _lib()
-    for f in failures:
+    failures = sorted(failures, key=lambda f: T.size(f["case"].base))
+    for i, f in enumerate(failures):
         c, v = f["case"], f["variant"]
+        case = replay_case(c.backend, v["kind"], c.base, v)
+        if i == 0 and not ctx.violations and f["key"] not in ctx._known:
+            case = shrink(ctx, case)  # the one that goes into the replay file: without the metadata it does not need
         ctx.violation(
             key=f["key"],
             what=f"the package generated for the {v['kind']} variant differs from the one for the base query (beyond the numbering of generated names)",
-            case=replay_case(c.backend, v["kind"], c.base, v),
+            case=case,
             observed={"lean": f["answer"], "base": summary(c.r0), "variant": summary(v["r"])},
             how="./check C08 --replay <this file>",
         )
@@ -718,11 +747,31 @@ def known_stream(ctx):
             )
 
 
+class Timer:
+    def __init__(self):
+        import time
+
+        self.t = time.time()
+        self.acc: Dict[str, float] = {}
+
+    def lap(self, name: str):
+        import time
+
+        now = time.time()
+        self.acc[name] = round(self.acc.get(name, 0.0) + now - self.t, 2)
+        self.t = now
+
+
+TIMER = Timer()
+
+
 def run(ctx):
     from vlib import corpus_cases
 
     T, gen, Vr, P = _lib()
+    TIMER.lap("build+audit")
     known_stream(ctx)
+    TIMER.lap("known findings")
     for c in corpus_cases(ID):
         r = compare_pair(ctx, c)
         ctx.count("corpus")
@@ -732,8 +781,9 @@ def run(ctx):
     quick = ctx.tier == "quick"
     stack_stream(ctx, 300 if quick else 3000)
     procmd_stream(ctx, 40 if quick else 400)
-    nq = 60 if quick else 240
-    batch = 60 if quick else 40
+    TIMER.lap("stack+procmd streams")
+    nq = 48 if quick else 240
+    batch = 48 if quick else 40
     done = 0
     while done < nq:
         cases: List[Case] = []
@@ -753,6 +803,7 @@ def run(ctx):
         done += batch
         ctx.check_time()
     ctx.extra_cov["exhaustive"] = False
+    ctx.extra_cov["seconds"] = TIMER.acc
     ctx.extra_cov["populations"] = {
         "proved (all inputs)": "statements about the models of name resolution, metadata extraction/placement, fusion of scalar-bodied chains, wire round trip",
         "sampled": "model-vs-code ties and the variant comparison on the real pipeline; fusing variants only where the simplified queries agree up to alpha",
